@@ -8,8 +8,9 @@ W=$(mktemp -d /tmp/tryp.XXXXXX); rmdir $W
 git -C /repo worktree add --detach $W HEAD >/dev/null 2>&1
 ( cd $W && git apply $D/patch.diff ) || { echo "patch does not apply"; git -C /repo worktree remove --force $W; exit 2; }
 O=$(mktemp -d /tmp/trypv.XXXXXX); cp $V/known_findings.json $O/
+BIN=${XJSCHECK_BIN:-$V/bin/xjscheck}
 for p in $PROPS; do
-  out=$($V/bin/xjscheck -property $p -tier quick -repo $W -verif $O 2>&1); rc=$?
+  out=$($BIN -property $p -tier quick -repo $W -verif $O 2>&1); rc=$?
   echo "$out" | grep -E '^\s+(VIOLATED|UNRESOLVED) ' | sed "s/^ */  $p /" | cut -c1-${COLS:-400}
   [ $rc -ne 0 ] && [ -z "$(echo "$out" | grep -E '^\s+(VIOLATED|UNRESOLVED) ')" ] && echo "$out" | tail -5
 done
